@@ -235,8 +235,9 @@ Theorem mon_input_pop_meaning pending inrange class has adelta head uid dlen dw 
     = true ->
   (* nothing pending: None, nothing published, nobody notified, nothing shared or unshared *)
   (pending = 0 -> class = 0 /\ has = 0 /\ adelta = 0 /\ n0 = 0 /\ nother = 0 /\ shares = 0 /\ unshares = 0)
-  (* an id outside event_buf: a clean panic before anything is touched *)
-  /\ (pending <> 0 -> inrange = 0 -> class = 2 /\ adelta = 0 /\ n0 = 0 /\ nother = 0 /\ shares = 0 /\ unshares = 0)
+  (* an id outside event_buf: a clean panic, or a return without an event, before anything is touched *)
+  /\ (pending <> 0 -> inrange = 0 ->
+        (class = 2 \/ (class = 0 /\ has = 0)) /\ adelta = 0 /\ n0 = 0 /\ nother = 0 /\ shares = 0 /\ unshares = 0)
   (* a completion under a token of event_buf, for EVERY recorded length: an event is returned; exactly one new ring entry,
      naming the used id itself (same token), whose descriptor is 8 bytes, device-writable and points at a live share of
      event_buf[used id]; that buffer was unshared once and shared once; only queue 0 is ever notified, at most once, and
@@ -250,7 +251,10 @@ Proof.
   - split; [intros _; lia|]. split; intros; contradiction.
   - split; [intros; contradiction|].
     destruct (N.eqb_spec inrange 0) as [Ei|Ei].
-    + split; [intros _ _; lia|]. intros; contradiction.
+    + split; [intros _ _; destruct (N.eqb_spec class 2) as [Ec|Ec]; cbn [orb] in H; [repeat split; try lia; now left|];
+              destruct (N.eqb_spec class 0) as [Ec0|Ec0]; cbn [andb] in H; [|discriminate H];
+              destruct (N.eqb_spec has 0) as [Eh|Eh]; cbn [andb] in H; [|discriminate H]; repeat split; try lia; right; split; assumption|].
+      intros; contradiction.
     + split; [intros; contradiction|]. intros _ _.
       destruct (N.eqb_spec must 1) as [Em|Em]; cbn [implb] in H; repeat split; try lia.
 Qed.
@@ -642,10 +646,11 @@ Qed.
 
 (* ------------------------------------------------------------------------------------------------ *)
 (* AUDIT witnesses (machine-checked; discussed in the builder's report)                              *)
-(* 1970 demands a PANIC for a used id outside event_buf: a driver that ignores such a completion and returns None, touching
-   nothing, ends "in a normal result" as C07 allows, and is rejected *)
-Example mon1970_rejects_graceful_refusal :
-  mon_input_pop [1; 0; 0; 0; 0; 0; 40; 0; 0; 0; 0; 0; 0; 0; 0; 0] = false.
+(* 1970 accepts a graceful refusal of a used id outside event_buf: a driver that ignores such a completion and returns None,
+   touching nothing, ends "in a normal result" as C07 allows. (As first written the monitor demanded the PANIC input.rs produces
+   and rejected this line; the clause was relaxed to "a clean panic or a return without an event".) *)
+Example mon1970_accepts_graceful_refusal :
+  mon_input_pop [1; 0; 0; 0; 0; 0; 40; 0; 0; 0; 0; 0; 0; 0; 0; 0] = true.
 Proof. reflexivity. Qed.
 (* 1971 states nothing when new did not return a driver: on the honest device of the scenario a failing constructor passes *)
 Example mon1971_accepts_failed_new : mon_input_new [1; 0; 0; 0; 0; 0; 0; 0] = true.
